@@ -849,7 +849,32 @@ fn case_generic<const RX: usize>(case: u64, seed: u64, focus: Focus, steps: usiz
             w.op_connect(peer, 10, u32::MAX);
             let chunk = vec![0u8; 192 << 20];
             let mut total: u64 = 0;
+            let mut straddled = false;
             while total < (9u64 << 29) && !w.failed() {
+                // Just below 2^32: the peer shrinks its window to 300 MiB and stops consuming, so the bytes in
+                // flight straddle the wrap of the 32-bit tx counter (tx_cnt small, peer fwd_cnt just below 2^32).
+                // The second send below would put 384 MiB in flight and must be refused (one credit request);
+                // op_send's oracle decodes every header against the 64-bit shadow.
+                if !straddled && total + 2 * chunk.len() as u64 > (1u64 << 32) {
+                    straddled = true;
+                    if let Some(i) = w.find(peer, 10) {
+                        w.peer_credit_update(i, u64::MAX, Some(300 << 20));
+                        w.poll_all();
+                        w.op_send(peer, 10, &chunk);
+                        total += chunk.len() as u64;
+                        w.poll_all();
+                        w.op_send(peer, 10, &chunk);
+                        w.poll_all();
+                        w.op_send(peer, 10, &chunk[..(108 << 20)]);
+                        total += 108 << 20;
+                        w.poll_all();
+                        w.op_send(peer, 10, &chunk[..1]);
+                        w.add("sends_with_inflight_straddling_counter_wrap", 4);
+                        w.peer_credit_update(i, u64::MAX, Some(u32::MAX));
+                        w.poll_all();
+                    }
+                    continue;
+                }
                 w.op_send(peer, 10, &chunk);
                 total += chunk.len() as u64;
                 if let Some(i) = w.find(peer, 10) {
